@@ -375,15 +375,81 @@ func c09(c *Ctx) {
 
 	// R3 parentBased table
 	c.Rule("R3", "E2 decision table", "parentBased.ShouldSample dispatch over (valid, remote, sampled) and the configured defaults / options", 16)
+	// A slot of samplerConfig is named by its path below the config value: ".remoteParentSampled" on the pinned tree, or
+	// ".delegates[0]" when the four samplers live in an array indexed by an enumeration. Which slot belongs to which case is
+	// read off the option that sets it (With…ParentSampled → <case>Option.apply); dispatch and defaults must agree with that.
+	var slotPath func(info *types.Info, e ast.Expr, root types.Object, env Env) (string, bool)
+	slotPath = func(info *types.Info, e ast.Expr, root types.Object, env Env) (string, bool) {
+		switch x := unparen(e).(type) {
+		case *ast.Ident:
+			if objOf(info, x) == root {
+				return "", true
+			}
+			return "", false
+		case *ast.SelectorExpr:
+			if b, ok := slotPath(info, x.X, root, env); ok {
+				return b + "." + x.Sel.Name, true
+			}
+		case *ast.IndexExpr:
+			if b, ok := slotPath(info, x.X, root, env); ok {
+				if env == nil {
+					env = func(ast.Expr) (constant.Value, bool) { return nil, false }
+				}
+				if v, isC := evalConst(info, x.Index, env); isC {
+					return b + "[" + v.ExactString() + "]", true
+				}
+			}
+		}
+		return "", false
+	}
+	cases := []string{"remoteParentSampled", "remoteParentNotSampled", "localParentSampled", "localParentNotSampled"}
+	slotOf := map[string]string{}
+	for _, o := range cases {
+		fn := c.Fn(ix, "R3", o+"Option.apply")
+		if fn == nil {
+			continue
+		}
+		params := fn.Obj.Type().(*types.Signature).Params()
+		fld := lookupField(ix.Pkg, "samplerConfig", o)
+		n := 0
+		okk := params.Len() == 1
+		inspectNoLit(fn.Body(), func(nd ast.Node) bool {
+			if as, ok := nd.(*ast.AssignStmt); ok && okk {
+				for _, l := range as.Lhs {
+					if _, isID := unparen(l).(*ast.Ident); isID {
+						continue
+					}
+					p, isSlot := slotPath(info, l, params.At(0), nil)
+					if !isSlot {
+						continue
+					}
+					n++
+					slotOf[o] = p
+					// on a tree that still has the field of that name, it is that field
+					if fv, _ := fieldOf(info, l); fld != nil && (fv == nil || fv != fld.Origin()) {
+						okk = false
+					}
+				}
+			}
+			return true
+		})
+		for _, o2 := range cases {
+			if o2 != o && slotOf[o2] != "" && slotOf[o2] == slotOf[o] {
+				okk = false // two cases share a slot
+			}
+		}
+		c.Check(okk && n == 1, "R3", "sdk/trace|"+o+"Option.apply|sets "+o, at(ix.M, fn.Pos()), "option writes its own slot ("+slotOf[o]+")", "option writes a different sampler slot")
+	}
 	if fn := c.Fn(ix, "R3", "parentBased.ShouldSample"); fn != nil {
 		g := ix.FG(fn)
 		sc := "(" + otelTrace + ".SpanContext)."
+		fConfig := lookupField(ix.Pkg, "parentBased", "config")
 		for _, row := range []struct {
 			valid, remote, sampled bool
 			want                   string
 		}{
-			{true, true, true, "config.remoteParentSampled"}, {true, true, false, "config.remoteParentNotSampled"},
-			{true, false, true, "config.localParentSampled"}, {true, false, false, "config.localParentNotSampled"},
+			{true, true, true, "remoteParentSampled"}, {true, true, false, "remoteParentNotSampled"},
+			{true, false, true, "localParentSampled"}, {true, false, false, "localParentNotSampled"},
 			{false, true, true, "root"}, {false, true, false, "root"}, {false, false, true, "root"}, {false, false, false, "root"},
 		} {
 			env := func(e ast.Expr) (constant.Value, bool) {
@@ -401,6 +467,13 @@ func c09(c *Ctx) {
 				}
 				return nil, false
 			}
+			want := row.want
+			if want != "root" {
+				want = "config" + slotOf[row.want]
+				if slotOf[row.want] == "" {
+					want = "config." + row.want
+				}
+			}
 			seen := g.ReachUnder(env)
 			var got []string
 			for x := range seen {
@@ -416,27 +489,98 @@ func c09(c *Ctx) {
 				recv, _ := methodCall(info, call)
 				// a sampler chosen into a local first (switch / if-chain assigning `delegate`) is resolved under the row's facts
 				recv = g.ResolveUnder(env, seen, recv, x)
-				got = append(got, chainAfter(info, recv, fn.Recv()))
+				// pb.config<slot>, the index of an array slot folded under the row's facts
+				rendered := chainAfter(info, recv, fn.Recv())
+				for cur := unparen(recv); ; {
+					var base ast.Expr
+					switch y := cur.(type) {
+					case *ast.SelectorExpr:
+						base = y.X
+					case *ast.IndexExpr:
+						base = y.X
+					}
+					if base == nil {
+						break
+					}
+					if fConfig != nil && isField(info, base, fConfig) {
+						if _, root := fieldOf(info, base); root != nil && objOf(info, root) == types.Object(fn.Recv()) {
+							// path of recv below pb.config
+							var below func(e ast.Expr) (string, bool)
+							below = func(e ast.Expr) (string, bool) {
+								e = unparen(e)
+								if e == unparen(base) {
+									return "", true
+								}
+								switch y := e.(type) {
+								case *ast.SelectorExpr:
+									if b, ok := below(y.X); ok {
+										return b + "." + y.Sel.Name, true
+									}
+								case *ast.IndexExpr:
+									if b, ok := below(y.X); ok {
+										if v, isC := evalConst(info, y.Index, g.withLocals(env)); isC {
+											return b + "[" + v.ExactString() + "]", true
+										}
+									}
+								}
+								return "", false
+							}
+							if p, ok := below(recv); ok {
+								rendered = "config" + p
+							}
+						}
+						break
+					}
+					cur = unparen(base)
+				}
+				got = append(got, rendered)
 			}
 			sort.Strings(got)
 			key := "sdk/trace|parentBased.ShouldSample|valid=" + boolStr(row.valid) + " remote=" + boolStr(row.remote) + " sampled=" + boolStr(row.sampled)
-			c.Check(len(got) == 1 && got[0] == row.want, "R3", key, at(ix.M, fn.Pos()), "→ "+row.want,
-				"delegates to "+strings.Join(got, ",")+", specification says "+row.want)
+			c.Check(len(got) == 1 && got[0] == want, "R3", key, at(ix.M, fn.Pos()), "→ "+want,
+				"delegates to "+strings.Join(got, ",")+", specification says "+want+" (the slot "+row.want+"Option sets)")
 		}
 	}
 	if fn := c.Fn(ix, "R3", "configureSamplersForParentBased"); fn != nil {
 		want := map[string]string{"remoteParentSampled": "AlwaysSample", "remoteParentNotSampled": "NeverSample", "localParentSampled": "AlwaysSample", "localParentNotSampled": "NeverSample"}
 		got := map[string]string{}
 		inspectNoLit(fn.Body(), func(n ast.Node) bool {
-			cl, ok := n.(*ast.CompositeLit)
-			if !ok || !typeIs(info.Types[cl].Type, sdkTrace, "samplerConfig") {
-				return true
-			}
-			for _, el := range cl.Elts {
-				if kv, ok := el.(*ast.KeyValueExpr); ok {
-					if call, ok := unparen(kv.Value).(*ast.CallExpr); ok {
-						if f := callee(info, call); f != nil {
-							got[kv.Key.(*ast.Ident).Name] = f.Name()
+			switch x := n.(type) {
+			case *ast.CompositeLit:
+				if !typeIs(info.Types[x].Type, sdkTrace, "samplerConfig") {
+					return true
+				}
+				for _, el := range x.Elts {
+					if kv, ok := el.(*ast.KeyValueExpr); ok {
+						if call, ok := unparen(kv.Value).(*ast.CallExpr); ok {
+							if f := callee(info, call); f != nil {
+								got["."+kv.Key.(*ast.Ident).Name] = f.Name()
+							}
+						}
+					}
+				}
+			case *ast.AssignStmt:
+				// c.<slot> = AlwaysSample() on a local config value
+				if len(x.Lhs) == 1 && len(x.Rhs) == 1 {
+					root := ast.Expr(x.Lhs[0])
+					for {
+						switch y := unparen(root).(type) {
+						case *ast.SelectorExpr:
+							root = y.X
+							continue
+						case *ast.IndexExpr:
+							root = y.X
+							continue
+						}
+						break
+					}
+					if ro := objOf(info, root); ro != nil && typeIs(ro.Type(), sdkTrace, "samplerConfig") && unparen(root) != unparen(x.Lhs[0]) {
+						if p, ok := slotPath(info, x.Lhs[0], ro, nil); ok {
+							if call, isC := unparen(x.Rhs[0]).(*ast.CallExpr); isC {
+								if f := callee(info, call); f != nil {
+									got[p] = f.Name()
+								}
+							}
 						}
 					}
 				}
@@ -444,32 +588,13 @@ func c09(c *Ctx) {
 			return true
 		})
 		for _, k := range []string{"localParentNotSampled", "localParentSampled", "remoteParentNotSampled", "remoteParentSampled"} {
-			c.Check(got[k] == want[k], "R3", "sdk/trace|configureSamplersForParentBased|default "+k, at(ix.M, fn.Pos()), "= "+want[k]+"()",
-				"default for "+k+" is "+got[k]+"(), specification says "+want[k]+"()")
-		}
-	}
-	for _, o := range []string{"remoteParentSampled", "remoteParentNotSampled", "localParentSampled", "localParentNotSampled"} {
-		fn := c.Fn(ix, "R3", o+"Option.apply")
-		if fn == nil {
-			continue
-		}
-		fld := lookupField(ix.Pkg, "samplerConfig", o)
-		n := 0
-		okk := true
-		inspectNoLit(fn.Body(), func(nd ast.Node) bool {
-			if as, ok := nd.(*ast.AssignStmt); ok {
-				for _, l := range as.Lhs {
-					if fv, _ := fieldOf(info, l); fv != nil {
-						n++
-						if fv != fld.Origin() {
-							okk = false
-						}
-					}
-				}
+			slot := slotOf[k]
+			if slot == "" {
+				slot = "." + k
 			}
-			return true
-		})
-		c.Check(okk && n == 1, "R3", "sdk/trace|"+o+"Option.apply|sets "+o, at(ix.M, fn.Pos()), "option writes its own slot", "option writes a different sampler slot")
+			c.Check(got[slot] == want[k], "R3", "sdk/trace|configureSamplersForParentBased|default "+k, at(ix.M, fn.Pos()), "= "+want[k]+"()",
+				"default for "+k+" is "+got[slot]+"(), specification says "+want[k]+"()")
+		}
 	}
 
 	// R4 ratio sampler
